@@ -32,7 +32,11 @@ import (
 // io.ErrNoProgress) still counts: the n it returned are accepted bytes and
 // have to leave with the message.
 //
-// Open: a message whose write-type calls accepted zero bytes and sent no
+// Open: a message whose write-type calls SUCCEEDED with zero bytes (Write(nil),
+// Write(empty), ReadFrom of an empty source) — "nothing written" can mean no
+// byte or no call. Calls that accepted zero bytes and returned an error have
+// written nothing.
+// Formerly: a message whose write-type calls accepted zero bytes and sent no
 // fragment may end in one empty final frame or in nothing.
 type Checker struct {
 	Cfg Config
@@ -80,6 +84,7 @@ type Checker struct {
 	Fragmented   int // completed messages with >= 1 non-final frame
 	SingleClaims int // messages the single-frame claim applied to
 	NoFlushOne   int // messages the disabled-flush claim applied to
+	FailedEmpty  int // ... of which after ReadFrom calls that failed with zero bytes
 	EmptyFlushes int // final flushes with no write-type call (sent nothing)
 	OpenEmpty    int // open class: zero bytes accepted, dirty
 	OpenNothing  int // ... of which nothing was sent
@@ -290,6 +295,17 @@ func (c *Checker) finish(r Result) error {
 			return fmt.Errorf("final flush with no write since the previous one sent %d frame(s)", n)
 		}
 		c.EmptyFlushes++
+		return nil
+	case c.setters == 0 && len(c.acc) == 0:
+		// Every write-type call of this message accepted zero bytes AND
+		// returned an error (ReadFrom whose source failed before its first
+		// byte): nothing was written, so "a final flush with nothing written
+		// emits nothing" decides it.
+		if n != 0 {
+			return fmt.Errorf("final flush sent %d frame(s) although nothing was written: the only calls since the previous flush were %d ReadFrom(s) whose source failed before delivering a byte", n, c.rfErrs)
+		}
+		c.EmptyFlushes++
+		c.FailedEmpty++
 		return nil
 	case n == 0:
 		if len(c.acc) != 0 {
